@@ -320,20 +320,26 @@ META["C05"] = {
 }
 
 META["C06"] = {
-    "level": "exploration",
-    "level_text": "Bounded contract check on the real lowering: ~140 single-for comprehension / "
-    "generator lambdas (7 element expressions x 0..3 if-clauses in every order, nested in element / "
-    "iterable / condition position and inside operator lambdas, targets colliding with outer names) "
-    "evaluated with the reference semantics against CPython evaluating the comprehension itself; 5 "
-    "dataclass / NamedTuple models x every call shape (positional counts, keyword subsets in every "
-    "order, unknown / surplus / repeated arguments) against inspect.Signature.bind; tuple targets "
-    "refused.",
-    "level_note": "Bounded stand-in; the loop-invariant proof of convert_call_to_dict / "
-    "resolve_generator planned in DESIGN §4 C06 is not in this build.",
-    "technique": "bounded contract check of the sugar-lowering contracts, oracles = CPython evaluating the comprehension and inspect.Signature.bind (labelled stand-in)",
-    "p_keys": False,
-    "explanation": "bounded only",
-    "assumptions": ["comprehension / class-model corpus bounded as stated"],
+    "level": "other",
+    "level_text": "Comprehension lowering is under contract and discharged for all inputs: "
+    "resolve_generator (two nested loop invariants over the reversed generator list: result == "
+    "sel_chain(body, reversed(generators)), i.e. X.Where(x: p)….Select(x: Y.Select(y: body)) for any "
+    "number of generators and if-clauses, ValueError iff a target is not a plain name or a generator "
+    "is async), visit_ListComp / visit_GeneratorExp and resolve_syntatic_sugar against the visitor "
+    "spec lower_sugar at every depth, including grammar well-formedness of the lowered expression "
+    "(list lemmas by structural induction). That the lowered chain MEANS the comprehension is "
+    "checked bounded: ~140 comprehension / generator lambdas evaluated with the reference semantics "
+    "against CPython evaluating the comprehension itself. Data-class / named-tuple constructor "
+    "lowering (convert_call_to_dict: Python reflection, in-place argument list) is bounded only: 5 "
+    "class models x every call shape against inspect.Signature.bind.",
+    "level_note": "Proved: the structural lowering of comprehensions. Bounded: its semantic reading "
+    "and the whole dataclass path. Assumed in the proof: visit_Call returns a well-formed "
+    "expression (uninterpreted in the spec).",
+    "technique": "sidecar contracts on resolve_generator / visit_ListComp / visit_GeneratorExp / resolve_syntatic_sugar (loop invariants, visitor induction, list lemmas) discharged with z3; semantic reading and dataclass lowering by bounded contract check against CPython and inspect.Signature.bind",
+    "p_keys": True,
+    "explanation": "comprehension lowering proved structurally; semantics and dataclass path bounded",
+    "assumptions": ["visit_Call (dataclass lowering) is uninterpreted in the visitor spec and assumed to return a well-formed expression",
+                    "comprehension / class-model corpus of the bounded part as stated"],
 }
 
 META["C03"] = {
